@@ -258,6 +258,12 @@ def build(repo=None):
             ob("C20:_make_array:passes-the-not-made-marker-through", o.kind == "return" and isinstance(o.val, Opaque) and o.val.tag == "sentinel:_not_made", ["C20", "C15"])
             continue
         cd = s1.ghost.get("class_dict")
+        if cd is not None and len(cd) == 3 and isinstance(cd[2], Ref) and isinstance(s1.get(cd[2]), Obj) and s1.get(cd[2]).cls == "dictlit":
+            # the namespace written as a dict display {"k": v, ...} instead of dict(k=v, ...): same thing
+            its = s1.get(cd[2]).attrs["items"].items
+            half = len(its) // 2
+            if all(isinstance(k_, Z) and k_.kind == "str" and z3.is_string_value(z3.simplify(k_.t)) for k_ in its[:half]):
+                cd = list(cd[:2]) + [Opaque("dict(...)", attrs={z3.simplify(k_.t).as_string(): v_ for k_, v_ in zip(its[:half], its[half:])})]
         good = o.kind == "return" and isinstance(o.val, Ref) and cd is not None and len(cd) == 3 and isinstance(cd[2], Opaque) and cd[2].attrs is not None
         ob("C20:_make_array:returns-a-new-annotation-class", good, ["C20"])
         if good:
